@@ -10,3 +10,10 @@ MUTANTS = [
     {'name': 'row guard differs from dtype guard', 'file': 'partitura/utils/music.py', 'old': '        if include_staff:\n            note_info += ((note.staff if note.staff else 0),)', 'new': '        if include_staff and note.staff:\n            note_info += ((note.staff if note.staff else 0),)', 'expect': 'F4a'}]
 
 NEUTRALS = [{'name': 'stable instead of mergesort', 'file': 'partitura/utils/music.py', 'old': '    onset_sort_idx = np.argsort(note_array[onset_unit], kind="mergesort")\n    note_array = note_array[onset_sort_idx]\n\n    return note_array\n\n\ndef rest_array_from_rest_list', 'new': '    onset_sort_idx = np.argsort(note_array[onset_unit], kind="stable")\n    note_array = note_array[onset_sort_idx]\n\n    return note_array\n\n\ndef rest_array_from_rest_list'}]
+
+# changes made by sub-agents that were given only the property text (see /verif/seeded/<id>/): each must stay reported
+SEEDED = [
+    {'name': 'seeded change C05-r2', 'seed': 'C05-r2', 'expect': '|F4a|'},
+    {'name': 'seeded change C05', 'seed': 'C05', 'expect': '|RESCALE|'},
+]
+MUTANTS += SEEDED
